@@ -392,11 +392,29 @@ def build(tier):
                params={"self": ppo_self, "obs": "opaque", "action_mask": "opaque", "action": (lambda ex, st, l: Vec(D, ACT, "policy_out"))},
                requires=[], frame_fields=False,                # clipped after the rescaling as well
                ensures=["implies(not training_flag, in_box(action, low, high))"], replay="c14:pg_eval")
+    # IPPO: the same tail inside the loop over policy groups - the space is that of the group's first agent
+    def ippo_self(ex, st, label):
+        o = Obj("model.IPPO", label="self")
+        o.fields.update(dict(action_space={"agent_0": BoxSpace(), "agent_1": BoxSpace(), "other_0": Opaque("another-space")},
+                             homogeneous_agents={"agent": ["agent_0", "agent_1"], "other": ["other_0"]}, training=z3.Bool("training_flag")))
+        return o
+    ippo_actor = lambda ex, st, l: Obj("agilerl.networks.actors.StochasticActor", {"action_low": Vec(D, LO, "low"), "action_high": Vec(D, HI, "high"),
+                                                                                    "squash_output": z3.Bool("squash_output")}, label="actor")
+    from pyvc import front as _front
+    _io, _im, _if = _front.find_function("agilerl.algorithms.ippo.IPPO.get_action")
+    P.contract("agilerl.algorithms.ippo.IPPO.get_action", variant="eval-box",
+               region=region("agent_id = self.homogeneous_agents[shared_id][0]", "action_dict[shared_id] = action"),
+               params={**{a_.arg: "opaque" for a_ in _if.args.args + _if.args.kwonlyargs if a_.arg != "self"},
+                       "self": ippo_self, "shared_id": (lambda ex, st, l: "agent"), "actor": ippo_actor, "critic": "opaque", "action_mask": "opaque",
+                       "log_prob": "opaque", "entropy": "opaque", "state_values": "opaque", "action_dict": (lambda ex, st, l: {}),
+                       "action": (lambda ex, st, l: Vec(D, ACT, "policy_out"))},
+               requires=[], frame_fields=False,
+               ensures=["implies(not training_flag, in_box(action_dict[shared_id], low, high))"], replay="c14:pg_eval")
     P.trusted += ["numpy.ma.array(values, mask) + numpy.argmax: masked entries are ignored when at least one entry is unmasked; numpy.where; "
                   "numpy.random.uniform in [0,1), numpy.random.randint(lo, hi) in [lo, hi), random.random() in [0,1)"]
     P.assumptions += ["network outputs are finite reals; masks are 0/1 with at least one legal action; low <= high component-wise",
                       "accelerator is None"]
     P.uncovered += ["CQN / Rainbow: 'exploration switched off' is read as 'the policy branch is taken' (DQN: proved for epsilon = 0 and every draw)",
-                    "IPPO evaluation clipping (same two statements as PPO, native only); MADDPG/MATD3 env-defined actions and agent masks (native adapters / not covered)",
+                    "MADDPG/MATD3 env-defined actions and agent masks (native adapters / not covered)",
                     "batch shape of the returned array"]
     return P
